@@ -140,6 +140,57 @@ func c14Session(e *c14env) {
 			}
 		}
 	})
+	// the subscription map itself handed to a function parameter: update(s.info.Topics) — whatever
+	// the closure does with it counts as a change at that call
+	handsMap := map[*types.Func]bool{}
+	e.decls(func(f *flow.Func, fd *ast.FuncDecl) {
+		o := e.funcObj(fd)
+		if o == nil {
+			return
+		}
+		params := c14params(f)
+		for _, call := range calls(fd.Body, false) {
+			id, ok := ast.Unparen(call.Fun).(*ast.Ident)
+			if !ok {
+				continue
+			}
+			for i, pv := range params {
+				if f.Info.Uses[id] != pv {
+					continue
+				}
+				for _, a := range call.Args {
+					if isTopics(f, a) {
+						if runsParam[o] == nil {
+							runsParam[o] = map[int]bool{}
+						}
+						runsParam[o][i] = true
+						handsMap[o] = true
+					}
+				}
+			}
+		}
+	})
+	e.decls(func(f *flow.Func, fd *ast.FuncDecl) {
+		for _, call := range calls(fd.Body, false) {
+			fo := c14calleeOf(f, call)
+			if fo == nil || !handsMap[fo] {
+				continue
+			}
+			for i, a := range call.Args {
+				if _, isLit := ast.Unparen(a).(*ast.FuncLit); isLit && runsParam[fo][i] {
+					dup := false
+					for _, d := range delegs {
+						if d.fd == fd && d.via == fo {
+							dup = true
+						}
+					}
+					if !dup {
+						delegs = append(delegs, deleg{fd, fo})
+					}
+				}
+			}
+		}
+	})
 	for fo, idxs := range runsParam {
 		hd := declOf(e.pkg, fo)
 		h := funcOf(e.pkg, hd)
